@@ -602,15 +602,29 @@ def cases_of(task):
     hfs = list(HOSTFORMS) if thorough else QUICK_HOSTFORMS
     retr = [False, 1, 2] if thorough else [False, 1]
     for hf in hfs:
-        for hist in histories(thorough, fat):
+        for hist in _hists(thorough, fat, hf):
             for retries in retr:
                 yield {"ps": ps, "ds": ds, "fwd": fwd, "fault": fault, "fat": fat, "cok": cok, "ph": ph, "rh": rh,
                        "hf": hf, "hist": hist, "retries": retries}
 
 
+QUICK_SHORT_HISTORIES = ["K", "C", "S", "KK", "CK", "SK"]
+
+
+def _hists(thorough, fat, hf):
+    """quick tier: the full history set for the plain host name; every other host form (which only changes how
+    the destination is SPELLED in CONNECT / Host / SNI) gets each server behaviour once and each kind of
+    re-connection once. thorough: full product."""
+    hs = histories(thorough, fat)
+    if thorough or hf == "name":
+        return hs
+    return [h for h in hs if h in QUICK_SHORT_HISTORIES or fat == "all"]
+
+
 def size_of(task):
     _row, fat, _ph, _rh, thorough = task
-    return (len(HOSTFORMS) if thorough else len(QUICK_HOSTFORMS)) * len(histories(thorough, fat)) * (3 if thorough else 2)
+    hfs = list(HOSTFORMS) if thorough else QUICK_HOSTFORMS
+    return sum(len(_hists(thorough, fat, hf)) for hf in hfs) * (3 if thorough else 2)
 
 
 def _worker(task):
@@ -708,7 +722,8 @@ def run(ctx):
                 "{none, proxy cert untrusted/other party's cert, CONNECT 403/407/502/garbage/EOF, origin cert untrusted/other party's cert} "
                 "x CONNECT success reply {200, 200+headers}; pruned where the truth table makes a dimension unobservable) x fault placement "
                 "{every socket, only socket 0, only socket 1%s} x proxy_headers(3) x request headers(3) x destination host form(%d) x history "
-                "(1-3 requests, after each response the server keeps alive / closes with Connection: close / closes silently) x retries %s. "
+                "(1-3 requests, after each response the server keeps alive / closes with Connection: close / closes silently; quick tier: full "
+                "history set for the plain host name, histories K,C,S,KK,CK,SK for the other host forms) x retries %s. "
                 "A case is non-trivial when at least one message or TLS set-up reached the proxy endpoint; distinct = distinct "
                 "(row, per-socket wire transcript + TLS set-ups + outcomes)" % (
                     ", only socket 2" if ctx.thorough else "", len(HOSTFORMS) if ctx.thorough else len(QUICK_HOSTFORMS),
